@@ -253,9 +253,10 @@ pub fn oracle_c02(scn: &E2Scn, d: &D2, stats: &mut Stats) -> Vec<Violation> {
     };
     // handler intervals
     let intervals: Vec<(u64, u64)> = d.batches.iter().enumerate().map(|(n, b)| (b.0, d.batch_end.get(n).map(|e| e.0).unwrap_or(u64::MAX))).collect();
-    let idle_from = |x: u64| -> u64 {
+    // first instant >= x at which none of the handler invocations before batch `upto` is running
+    let idle_from = |x: u64, upto: usize| -> u64 {
         let mut t = x;
-        for (s, e) in &intervals {
+        for (s, e) in intervals.iter().take(upto) {
             if *s <= t && t <= *e {
                 t = *e;
             }
@@ -312,13 +313,13 @@ pub fn oracle_c02(scn: &E2Scn, d: &D2, stats: &mut Stats) -> Vec<Violation> {
                     .iter()
                     .filter_map(|id| {
                         let f = d.filter.get(id).and_then(|c| c.iter().filter(|c| c.1 < *dseq).map(|c| c.0).last());
-                        let s = d.sent.get(id).and_then(|c| c.iter().filter(|c| c.1 < *dseq && c.2).map(|c| idle_from(c.0)).last());
-                        let ts = d.trysent.get(id).and_then(|c| c.iter().filter(|c| c.1 < *dseq && c.2).map(|c| idle_from(c.0)).last());
+                        let s = d.sent.get(id).and_then(|c| c.iter().filter(|c| c.1 < *dseq && c.2).map(|c| idle_from(c.0, n)).last());
+                        let ts = d.trysent.get(id).and_then(|c| c.iter().filter(|c| c.1 < *dseq && c.2).map(|c| idle_from(c.0, n)).last());
                         f.or(s).or(ts)
                     })
                     .min()
                     .unwrap_or(first_lb);
-                if *dt > ub_first + hi {
+                if *dt > ub_first.saturating_add(hi) {
                     vs.push(Violation::new(
                         "batch-starved",
                         "",
